@@ -366,8 +366,6 @@ func genHeap(r *vlib.Rand, n int, alwaysPush bool) ([]*model.PushRequest, string
 	return cells, h
 }
 
-const findingNilPush = "C02-copymerge-drops-snapshot"
-
 func heapCases(c *vlib.Collector, r *vlib.Rand, id *int, count int) {
 	for n := 0; n < count; n++ {
 		*id++
@@ -380,7 +378,6 @@ func heapCases(c *vlib.Collector, r *vlib.Rand, id *int, count int) {
 		v0 := viewOf(cells)
 		tags := []string{"heap"}
 		var steps []string
-		finding := false
 		for k, nops := 0, 1+rr.Intn(3); k < nops; k++ {
 			pick := func() int {
 				if rr.Chance(8) {
@@ -404,7 +401,7 @@ func heapCases(c *vlib.Collector, r *vlib.Rand, id *int, count int) {
 			} else {
 				op = "HCopyMerge"
 				if a >= 0 && b >= 0 && cells[a].Push != nil && cells[b].Push == nil {
-					finding = true
+					tags = append(tags, "copymerge-later-without-snapshot")
 				}
 				res = get(a).CopyMerge(get(b))
 				tags = append(tags, "copymerge")
@@ -427,10 +424,6 @@ func heapCases(c *vlib.Collector, r *vlib.Rand, id *int, count int) {
 				}
 			}
 			steps = append(steps, "("+vlib.App(op, optNat(a), optNat(b))+", "+optNat(ri)+", "+viewOf(cells)+")")
-		}
-		if finding {
-			c.FindingOf[*id] = findingNilPush
-			tags = append(tags, "finding-nil-push")
 		}
 		c.Add(vlib.Case{ID: *id, Term: vlib.App("CHeap", vlib.NI(*id), h0, v0, vlib.List(steps)), Tags: tags,
 			Sample: map[string]any{"kind": "heap", "heap": h0, "steps": steps}})
@@ -470,8 +463,7 @@ func queueCases(c *vlib.Collector, r *vlib.Rand, id *int, count int) {
 		}
 		var delivered []handed
 		shut := false
-		lastPush := map[int]int{} // conn -> push of the last accepted request (finding detection)
-		finding := false
+		lastPush := map[int]int{} // conn -> push of the last accepted request
 		deq := func() {
 			con, req, sd := q.Dequeue()
 			if sd {
@@ -505,7 +497,7 @@ func queueCases(c *vlib.Collector, r *vlib.Rand, id *int, count int) {
 						q.Enqueue(conns[j], pool[p])
 						if !shut {
 							if lp, ok := lastPush[j]; ok && lp >= 0 && pool[p].Push == nil {
-								finding = true
+								tags["enq-later-without-snapshot"] = true
 							}
 							lastPush[j] = valueOf(pool[p]).Push
 						}
@@ -520,7 +512,7 @@ func queueCases(c *vlib.Collector, r *vlib.Rand, id *int, count int) {
 				q.Enqueue(conns[i], pool[p])
 				if !shut {
 					if lp, ok := lastPush[i]; ok && lp >= 0 && pool[p].Push == nil {
-						finding = true
+						tags["enq-later-without-snapshot"] = true
 					}
 					lastPush[i] = valueOf(pool[p]).Push
 				}
@@ -579,10 +571,6 @@ func queueCases(c *vlib.Collector, r *vlib.Rand, id *int, count int) {
 				intact = false
 			}
 		}
-		if finding {
-			c.FindingOf[*id] = findingNilPush
-			tags["finding-nil-push"] = true
-		}
 		tl := make([]string, 0, len(tags))
 		for t := range tags {
 			tl = append(tl, t)
@@ -598,7 +586,20 @@ func queueCases(c *vlib.Collector, r *vlib.Rand, id *int, count int) {
 
 // ---------------------------------------------------------------- debounce cases
 
-const waitLimit = 60 * time.Second
+// waitFor is how long the harness waits for something the implementation owes (a push, an event, a
+// counter value).  On a healthy tree nothing ever times out, so the first wait is generous; once one
+// wait has expired (an update was lost: already a violation) the remaining cases use a short limit so
+// that a broken tree is reported in seconds per case instead of minutes.
+var timeouts atomic.Int32
+
+func waitFor() time.Duration {
+	if timeouts.Load() > 0 {
+		return 2 * time.Second
+	}
+	return 30 * time.Second
+}
+
+func expired() { timeouts.Add(1) }
 
 type dbCall struct {
 	v    val
@@ -693,6 +694,7 @@ func runDebounce(id int, rr *vlib.Rand) dbResult {
 		total++
 		ch <- ev
 	}
+	outstanding := 0 // recorded pushFn calls not yet released (more than one only if pushes overlap)
 	record := func(cl dbCall) {
 		if inflight {
 			tags["observed-overlap"] = true
@@ -703,6 +705,7 @@ func runDebounce(id int, rr *vlib.Rand) dbResult {
 		pushes = append(pushes, cl)
 		pushedDeb += cl.size
 		inflight = true
+		outstanding++
 	}
 	poll := func() {
 		select {
@@ -719,16 +722,17 @@ func runDebounce(id int, rr *vlib.Rand) dbResult {
 		case cl := <-calls:
 			record(cl)
 			return true
-		case <-time.After(waitLimit):
-			violated = fmt.Sprintf("no push arrived within %v although %d debounced events are outstanding", waitLimit, sentDeb-pushedDeb)
+		case <-time.After(waitFor()):
+			expired()
+			violated = fmt.Sprintf("no push arrived although %d debounced events are outstanding", sentDeb-pushedDeb)
 			return false
 		}
 	}
 	rel := func() {
-		if inflight {
+		for ; outstanding > 0; outstanding-- {
 			release <- struct{}{}
-			inflight = false
 		}
+		inflight = false
 	}
 	nphases := 1 + rr.Intn(4)
 phases:
@@ -775,11 +779,14 @@ phases:
 		rel()
 	}
 	// every event must end up counted in updateSent
-	deadline := time.Now().Add(waitLimit)
+	deadline := time.Now().Add(waitFor())
 	for violated == "" && updateSent.Load() < int64(total) && time.Now().Before(deadline) {
 		time.Sleep(200 * time.Microsecond)
 	}
 	committed := updateSent.Load()
+	if committed < int64(total) {
+		expired()
+	}
 	close(stop)
 	// a stray push (only possible if the implementation pushes something twice) must not block forever
 	go func() {
@@ -981,7 +988,8 @@ func runSender(id int, rr *vlib.Rand) dbResult {
 					c.ev = ev
 					c.state = handedSt
 					add("SOHand " + vlib.NI(i) + " " + optReqTerm(pxds.VerifEventRequest(ev)))
-				case <-time.After(waitLimit):
+				case <-time.After(waitFor()):
+					expired()
 					violated = fmt.Sprintf("client %d never received its push event", i)
 				}
 			}
@@ -1049,7 +1057,8 @@ func runSender(id int, rr *vlib.Rand) dbResult {
 					c.ev = ev
 					c.state = handedSt
 					add("SOHand " + vlib.NI(i) + " " + optReqTerm(pxds.VerifEventRequest(ev)))
-				case <-time.After(waitLimit):
+				case <-time.After(waitFor()):
+					expired()
 					violated = fmt.Sprintf("client %d never received its push event (drain)", i)
 				}
 				progressed = true
@@ -1080,15 +1089,19 @@ func runSender(id int, rr *vlib.Rand) dbResult {
 	select {
 	case <-exitedCh:
 		exited = true
-	case <-time.After(waitLimit):
+	case <-time.After(waitFor()):
+		expired()
 		violated = "sender loop did not exit after ShutDown"
 	}
 	// parked goroutines of closed clients release their token asynchronously
-	deadline := time.Now().Add(waitLimit)
+	deadline := time.Now().Add(waitFor())
 	for len(sem) > 1 && time.Now().Before(deadline) {
 		time.Sleep(200 * time.Microsecond)
 	}
 	final := len(sem)
+	if final > 1 {
+		expired()
+	}
 	if !stopped {
 		close(stop)
 	}
@@ -1127,7 +1140,8 @@ func senderCases(c *vlib.Collector, r *vlib.Rand, id *int, count int) {
 
 // ---------------------------------------------------------------- fixed witnesses
 
-// witnessCases replays the Props.v counterexample (C02_copy_merge_newest_refuted) against the real code.
+// witnessCases: regression inputs of the repaired defect (CopyMerge used to drop the earlier push context when the
+// later request had none); they must simply pass, a recurrence is a VIOLATION.
 func witnessCases(c *vlib.Collector, id *int) {
 	*id++
 	if c.Wanted(*id) {
@@ -1139,9 +1153,8 @@ func witnessCases(c *vlib.Collector, id *int) {
 		res := a.CopyMerge(b)
 		cells = append(cells, res)
 		step := "(HCopyMerge (Some 0%nat) (Some 1%nat), (Some 2%nat), " + viewOf(cells) + ")"
-		c.FindingOf[*id] = findingNilPush
 		c.Add(vlib.Case{ID: *id, Term: vlib.App("CHeap", vlib.NI(*id), h0, v0, vlib.List([]string{step})),
-			Tags: []string{"heap", "witness", "finding-nil-push"}, Sample: map[string]any{"kind": "witness", "step": step}})
+			Tags: []string{"heap", "regression-copymerge-snapshot"}, Sample: map[string]any{"kind": "witness", "step": step}})
 	}
 	*id++
 	if c.Wanted(*id) {
@@ -1155,9 +1168,8 @@ func witnessCases(c *vlib.Collector, id *int) {
 		q.MarkDone(con)
 		trace := []string{"(OEnq 0%N " + valueOf(a).term() + ")", "(OEnq 0%N " + valueOf(b).term() + ")",
 			"(ODeq (DItem 0%N " + optReqTerm(got) + "))", "(ODone 0%N)"}
-		c.FindingOf[*id] = findingNilPush
 		c.Add(vlib.Case{ID: *id, Term: vlib.App("CQueue", vlib.NI(*id), vlib.List(trace), "true"),
-			Tags: []string{"queue", "witness", "finding-nil-push"}, Sample: map[string]any{"kind": "witness", "trace": trace}})
+			Tags: []string{"queue", "regression-copymerge-snapshot"}, Sample: map[string]any{"kind": "witness", "trace": trace}})
 	}
 }
 
